@@ -202,10 +202,13 @@ Section Auth.
       end
     end.
 
-  Definition verify_native (chain : bytes) (t : tx) : verdict :=
+  (* [gh] is the recomputed digest tx.GenHash() *)
+  Definition verify_native_h (gh : bytes) (chain : bytes) (t : tx) : verdict :=
     if negb (bytes_eqb (t_chainid t) chain) then RChainId
-    else if negb (bytes_eqb (t_hash t) (gen_hash t)) then RHash
+    else if negb (bytes_eqb (t_hash t) gh) then RHash
     else verify_sign t.
+
+  Definition verify_native (chain : bytes) (t : tx) : verdict := verify_native_h (gen_hash t) chain t.
 
   (* ----- Ethereum ----- *)
   Definition recover_plain (h : bytes) (r s : N) (vb : Z) : sres :=
@@ -244,16 +247,25 @@ Section Auth.
     (t_nonce t =? t_nonce x) && bytes_eqb (t_chainid t) (t_chainid x) &&
     bytes_eqb (t_data t) (t_data x) && bytes_eqb (t_hash t) (t_hash x).
 
-  Definition verify_eth (chain : N) (t : tx) : verdict :=
+  (* verifyETHTx, keeping the intermediate results: decoding failed / sender derivation failed /
+     the transaction ConvertTx builds from the payload and the outcome of compareTx *)
+  Inductive etrace := TDecFail | TSender (e : serr) | TConv (x : tx) (same : bool).
+
+  Definition eth_trace (chain : N) (t : tx) : etrace :=
     let enc := from_hex (t_extra t) in
     match decode_etx enc with
-    | None => RIllegal
+    | None => TDecFail
     | Some (v, e) =>
       match eth_sender chain e with
-      | SErr _ => RIllegal
-      | SOk a => if compare_tx t (convert v e a enc) then Accept else RIllegal
+      | SErr k => TSender k
+      | SOk a => let x := convert v e a enc in TConv x (compare_tx t x)
       end
     end.
+
+  Definition verdict_of_trace (tr : etrace) : verdict :=
+    match tr with TConv _ true => Accept | _ => RIllegal end.
+
+  Definition verify_eth (chain : N) (t : tx) : verdict := verdict_of_trace (eth_trace chain t).
 
   (* TxPool.VerifyTransaction; [chain] is common.ChainId(height), [chain_n] its value as a number
      (common.GetChainId(height)) *)
